@@ -84,12 +84,16 @@ func (b *Blockstore) Has(ctx context.Context, cid cid.Cid) (bool, error) {
 	return has, nil
 }
 
+// Put is a no-op: the Blockstore serves blocks out of stored EDSes and has nowhere to keep a
+// single block. It must not panic, as the Bitswap getter of a node that is backed by the EDS
+// store hands every fetched block to its blockstore.
 func (b *Blockstore) Put(context.Context, blocks.Block) error {
-	panic("not implemented")
+	return nil
 }
 
+// PutMany is a no-op, see Put.
 func (b *Blockstore) PutMany(context.Context, []blocks.Block) error {
-	panic("not implemented")
+	return nil
 }
 
 func (b *Blockstore) DeleteBlock(context.Context, cid.Cid) error {
